@@ -97,10 +97,15 @@ def explore_under(prog, body, config, root: List[int], max_paths: int = 40000) -
     results: List[PathResult] = []
     prefix = list(root)
     n = 0
+    import time as _time
+    t_end = _time.time() + float(config.get("root_time_budget", 300))
     while True:
         n += 1
-        if n > max_paths:
-            raise AnalysisError("path budget exceeded")
+        if n > max_paths or _time.time() > t_end:
+            # keep what was explored (a violation among these paths is still a violation); the caller records that the
+            # cases under this root were not exhausted
+            results.append(None)  # type: ignore
+            break
         it = Interp(prog, prefix, config)
         try:
             v = body(it)
@@ -136,6 +141,10 @@ def _worker(task):
     res = explore_under(prog, body, config, root)
     out = []
     for p in res:
+        if p is None:
+            out.append({"rule": rname, "opts": opts, "outcome": "budget", "cond": "",
+                        "note": f"exploration budget exhausted under decision prefix {root} after {len(res) - 1} paths"})
+            continue
         out.extend(judge_path(prog, S, rname, opts, p))
     return out
 
